@@ -1,7 +1,7 @@
 """check configuration for C16 (loaded by lib/zvprops.py)"""
 
 PROP = {
- 'gen_tables': ['LevelText', 'EntryMeta', 'LevelColor'],
+ 'gen_tables': ['LevelText', 'EntryMeta', 'LevelColor', 'TransConsole'],
  'rule': 'ops: random entries × encoder configs (7 keys each empty/plain/hostile/duplicate; built-in, nil and no-op sub-encoders; time layouts incl. '
          'ones needing escapes; line endings) × With-chains (≤3) × call-site fields (every field kind; nested object/array/inline/dict/namespace '
          'marshalers to depth ≤4; hostile strings: invalid UTF-8, control bytes, quotes; NaN/Inf; boundary ints; failing marshalers, panicking / nil '
